@@ -273,7 +273,7 @@ func genValues(r *hx.Rng, md protoreflect.MessageDescriptor) []*dynamicpb.Messag
 	}
 	n := 12
 	if thorough {
-		n = 120
+		n = 40
 	}
 	for i := 0; i < n; i++ {
 		out = append(out, randMessage(r, md, 3))
